@@ -289,7 +289,33 @@ func genRot(out *bufio.Writer, rng *rand.Rand, count int) int {
 	for n := 0; n < count; n++ {
 		b := genBattleSpec(rng, 3)
 		m := uint64(b.cfg.CoreSize)
+		if n%6 == 5 {
+			// limits above the core size (Validate accepts them; preset nop256), pointers near M
+			if n%12 == 5 {
+				b.cfg = gmars.ConfigNop256
+				b.cfg.Cycles = gmars.Address(20 + rng.Intn(100))
+				m = 256
+				for i := range b.warriors {
+					b.warriors[i] = genWarrior(rng, m, 10)
+					b.offsets[i] = uint64(rng.Int63n(int64(m)))
+				}
+			} else {
+				b.cfg.ReadLimit = gmars.Address([]uint64{m + 1, 2 * m, 3*m + 1, 800}[rng.Intn(4)])
+				b.cfg.WriteLimit = gmars.Address([]uint64{m + 1, 2 * m, 3*m + 1, 800}[rng.Intn(4)])
+			}
+			for i := range b.warriors {
+				for j := range b.warriors[i].Code {
+					if rng.Intn(2) == 0 {
+						b.warriors[i].Code[j].A = gmars.Address((2*m - 1 - uint64(rng.Intn(4))) % m)
+						b.warriors[i].Code[j].B = gmars.Address((2*m - 1 - uint64(rng.Intn(8))) % m)
+					}
+				}
+			}
+		}
 		k := uint64(rng.Int63n(int64(m)))
+		if n%6 == 5 && rng.Intn(2) == 0 {
+			k = m - 1 - uint64(rng.Intn(int(m/4)+1)) // a placement high in the core
+		}
 		if rng.Intn(4) == 0 {
 			// make the first warrior wrap past the end of the core
 			k = (m - b.offsets[0]%m + m - 1) % m
